@@ -13,20 +13,20 @@ Prelude ==
     Def1("si", SliceLit("int", <<I("1"), I("2")>>)), Def1("sb", SliceLit("bool", <<BoolL(TRUE)>>)), Def1("ss", SliceLit("string", <<StrL("a")>>)),
     Func("v0", <<>>, <<>>, <<Print1(StrL("v0"))>>),
     Func("m2", <<>>, <<"int", "int">>, <<RetS(<<I("1"), I("2")>>)>>),
-    Func("fi", <<Param("a", "int")>>, <<"int">>, <<RetS(<<Var("a")>>)>>),
+    Func("fnI", <<Param("a", "int")>>, <<"int">>, <<RetS(<<Var("a")>>)>>),
     Func("fs", <<Param("a", "string")>>, <<"string">>, <<RetS(<<Var("a")>>)>>),
     Func("f2", <<Param("a", "int"), Param("b", "string")>>, <<"int">>, <<RetS(<<Var("a")>>)>>),
     Func("fsl", <<Param("a", "[]int")>>, <<"[]int">>, <<RetS(<<Var("a")>>)>>)>>
 
 \* offered expressions: <<type name, spelling name, expression>>
-OffersAll == {<<"int", "lit", I("5")>>, <<"int", "var", Var("xi")>>, <<"int", "call", CallE("fi", <<I("1")>>)>>, <<"int", "expr", Bin("+", Var("xi"), I("1"))>>, <<"int", "len", LenE(Var("xs"))>>,
+OffersAll == {<<"int", "lit", I("5")>>, <<"int", "var", Var("xi")>>, <<"int", "call", CallE("fnI", <<I("1")>>)>>, <<"int", "expr", Bin("+", Var("xi"), I("1"))>>, <<"int", "len", LenE(Var("xs"))>>,
               <<"bool", "lit", BoolL(TRUE)>>, <<"bool", "var", Var("xb")>>, <<"bool", "cmp", CmpE("<", Var("xi"), I("2"))>>, <<"bool", "not", Not(Var("xb"))>>,
               <<"string", "lit", StrL("t")>>, <<"string", "var", Var("xs")>>, <<"string", "itoa", Itoa(Var("xi"))>>, <<"string", "nil", Nil>>, <<"string", "idx", IndexE(Var("xs"), I("0"))>>,
               <<"sliceint", "lit", SliceLit("int", <<I("1")>>)>>, <<"sliceint", "var", Var("si")>>, <<"sliceint", "call", CallE("fsl", <<Var("si")>>)>>,
               <<"slicebool", "var", Var("sb")>>, <<"slicestring", "var", Var("ss")>>, <<"slicestring", "lit", SliceLit("string", <<>>)>>,
               <<"void", "call", CallE("v0", <<>>)>>, <<"multi", "call", CallE("m2", <<>>)>>,
               \* the same behind parentheses: a group has the type (and the value count) of what it holds
-              <<"void", "grp", Grp(CallE("v0", <<>>))>>, <<"multi", "grp", Grp(CallE("m2", <<>>))>>, <<"int", "grpcall", Grp(CallE("fi", <<I("1")>>))>>, <<"string", "grp", Grp(Var("xs"))>>}
+              <<"void", "grp", Grp(CallE("v0", <<>>))>>, <<"multi", "grp", Grp(CallE("m2", <<>>))>>, <<"int", "grpcall", Grp(CallE("fnI", <<I("1")>>))>>, <<"string", "grp", Grp(Var("xs"))>>}
 Offers == IF Quick THEN {o \in OffersAll : o[2] \in {"var", "call", "grp"} /\ ~(o[1] = "int" /\ o[2] = "call") /\ ~(o[1] = "sliceint" /\ o[2] = "call")} \cup {<<"string", "nil", Nil>>}
           ELSE OffersAll
 
@@ -78,7 +78,7 @@ Pos(p, h) ==
     [] p = "elemInt" -> <<Def1("r", SliceLit("int", <<I("1"), h>>))>>
     [] p = "elemStr" -> <<Def1("r", SliceLit("string", <<h, StrL("z")>>))>>
     [] p = "elemBool" -> <<Def1("r", SliceLit("bool", <<h>>))>>
-    [] p = "argInt" -> <<Def1("r", CallE("fi", <<h>>))>>
+    [] p = "argInt" -> <<Def1("r", CallE("fnI", <<h>>))>>
     [] p = "argStr" -> <<Def1("r", CallE("fs", <<h>>))>>
     [] p = "arg2" -> <<Def1("r", CallE("f2", <<I("1"), h>>))>>
     [] p = "argSlice" -> <<Def1("r", CallE("fsl", <<h>>))>>
@@ -128,7 +128,7 @@ RetCases == {CaseOf("C06/ret/" \o p \o "/" \o o[1] \o "." \o o[2], Prelude \o Fu
 
 \* arity and value-count
 ArityCases ==
-  {CaseOf("C06/arity/fi0", Prelude \o <<Def1("r", CallE("fi", <<>>))>>), CaseOf("C06/arity/fi2", Prelude \o <<Def1("r", CallE("fi", <<I("1"), I("2")>>))>>),
+  {CaseOf("C06/arity/fi0", Prelude \o <<Def1("r", CallE("fnI", <<>>))>>), CaseOf("C06/arity/fi2", Prelude \o <<Def1("r", CallE("fnI", <<I("1"), I("2")>>))>>),
    CaseOf("C06/arity/f21", Prelude \o <<Def1("r", CallE("f2", <<I("1")>>))>>), CaseOf("C06/arity/f23", Prelude \o <<Def1("r", CallE("f2", <<I("1"), StrL("s"), I("3")>>))>>),
    CaseOf("C06/arity/v01", Prelude \o <<ExprS(CallE("v0", <<I("1")>>))>>), CaseOf("C06/arity/ok", Prelude \o <<Def1("r", CallE("f2", <<I("1"), StrL("s")>>)), ExprS(CallE("v0", <<>>))>>),
    CaseOf("C06/count/def2of1", Prelude \o <<Def(<<"p", "q">>, <<I("1")>>)>>), CaseOf("C06/count/def1of2", Prelude \o <<Def(<<"p">>, <<I("1"), I("2")>>)>>),
@@ -155,6 +155,14 @@ VList(f, n, k, h) ==
     [] f = "callargs" -> <<Func("g", [i \in 1..n |-> Param("a" \o ToString(i), "int")], <<>>, <<Print1(Var("a1"))>>), ExprS(CallE("g", VVals(n, k, h)))>>
 VListCases == {CaseOf("C06/vlist/" \o f \o "/" \o ToString(nk[1]) \o "." \o ToString(nk[2]) \o "/" \o o[1] \o "." \o o[2], Prelude \o VList(f, nk[1], nk[2], o[3]))
                : f \in VForms, nk \in {<<2, 1>>, <<2, 2>>, <<3, 1>>, <<3, 2>>, <<3, 3>>}, o \in Offers}
+\* the same positions x ALL offers, made observable (the defined value is printed): the accepted ones are RUN and validated against TshDyn by C01/C03,
+\* so that every operator and builtin is executed with every kind of operand expression (literal, variable, call, nested expression, len, itoa, nil,
+\* subscript, slice literal / variable / call, parenthesised forms)
+DefinesR(ss) == \E i \in 1..Len(ss) : ss[i].k = "define" /\ \E j \in 1..Len(ss[i].names) : ss[i].names[j] = "r"
+Shown(ss) == IF DefinesR(ss) THEN ss \o <<PrintS(<<StrL("r ="), Var("r")>>)>> ELSE ss
+RunCases == {CaseOf("C06/run/" \o p \o "/" \o o[1] \o "." \o o[2] \o "/" \o c, Prelude \o Wrap(c, Shown(Pos(p, o[3]))) \o <<PrintS(<<StrL("end"), Var("xi"), Var("xb"), Var("xs"), LenE(Var("si")), LenE(Var("ss"))>>)>>)
+             : p \in PosNames, o \in OffersAll, c \in {"top", "func"}}
+ASSUME ndJsonSerialize("famrun.ndjson", SetToSeq(RunCases))
 All == PosCases \cup RetCases \cup ArityCases \cup VListCases
 ASSUME ndJsonSerialize("fam.ndjson", SetToSeq(All))
 =============================================================================
